@@ -252,6 +252,55 @@ func run(r *harness.Run) {
 		})
 		r.Count("deep_branch_scenarios_"+ver, int64(seen.len()))
 	}
+	// mainline family: a power-levels change followed by two content events on one branch (both cite the branch's power-levels
+	// event) against a branch that is empty, a content event, another power-levels change, or that change followed by one or two
+	// content events: the shapes in which several events reach the mainline through the same off-mainline power-levels event,
+	// under every ID / timestamp mode (the mainline order is the only thing that separates the competing content events)
+	{
+		pls := []string{"pl-promote-carol", "pl-demote-bob", "pl-state-default-0", "pl-events-default-50", "pl-kick-100"}
+		cons := []string{"topic-alice", "topic-bob", "topic-carol", "name-bob"}
+		var as, bs [][]string
+		bs = append(bs, nil)
+		for _, c := range cons {
+			bs = append(bs, []string{c})
+		}
+		for _, p := range pls {
+			bs = append(bs, []string{p})
+			for _, c1 := range cons {
+				bs = append(bs, []string{p, c1})
+				for _, c2 := range cons {
+					if c1 != c2 {
+						as = append(as, []string{p, c1, c2})
+						bs = append(bs, []string{p, c1, c2})
+					}
+				}
+			}
+		}
+		for _, ver := range []string{"10", "12"} {
+			ver := ver
+			seen := newSigSet()
+			r.Parallel(len(as), func(i int) {
+				for _, b := range bs {
+					if r.Expired() {
+						r.Cap("wall-clock budget reached in the mainline family of version " + ver)
+						return
+					}
+					for _, m := range modes {
+						sc := scenario{Version: ver, IDMode: m.id, TSMode: m.ts, A: as[i], B: b}
+						if m.id == 0 && m.ts == 0 {
+							if !seen.add(build(sc).Sig) {
+								break
+							}
+						}
+						if _, err := check(r, sc); err != nil {
+							r.Violation(fmt.Sprintf("scenario:%s/mainline:%v|%v:%d%d", ver, sc.A, sc.B, m.id, m.ts), err.Error(), "scenario", sc)
+						}
+					}
+				}
+			})
+			r.Count("mainline_family_scenarios_"+ver, int64(seen.len()))
+		}
+	}
 	r.Sample("scenario", scenario{Version: "10", A: []string{"alice-bans-bob"}, B: []string{"topic-bob", "pl-bob-invite-50"}})
 	r.Sample("scenario", scenario{Version: "12", IDMode: 1, TSMode: 1, A: []string{"pl-demote-bob", "topic-alice"}, B: []string{"bob-kicks-carol", "carol-joins"}})
 	r.Extra("bounds", map[string]int{"branch_length": L, "modes": len(modes)})
